@@ -14,13 +14,15 @@ use crate::c02::walk;
 use crate::common::*;
 
 fn settings_json() -> Value { json!({"verify": {"remote_manifest_fetch": false}}) }
+fn fast_sign_settings() -> Value { json!({"verify": {"remote_manifest_fetch": false, "verify_after_sign": false}}) }
 
-fn sign_with_ings(title: &str, ings: &[&Vec<u8>]) -> Result<Vec<u8>, String> {
+fn sign_with_ings(title: &str, ings: &[&Vec<u8>]) -> Result<Vec<u8>, String> { sign_with_ings_s(title, ings, &settings_json()) }
+fn sign_with_ings_s(title: &str, ings: &[&Vec<u8>], st: &Value) -> Result<Vec<u8>, String> {
     let mut actions = vec![];
     if ings.is_empty() { actions.push(json!({"action": "c2pa.created", "digitalSourceType": "http://cv.iptc.org/newscodes/digitalsourcetype/digitalCapture"})); }
     for k in 0..ings.len() { actions.push(json!({"action": if k == 0 { "c2pa.opened" } else { "c2pa.placed" }, "parameters": {"ingredientIds": [format!("ING{}", k + 1)]}})); }
     let def = json!({"title": title, "format": "image/jpeg", "claim_generator_info": [{"name": "vh", "version": "0.1"}], "assertions": [{"label": "c2pa.actions", "data": {"actions": actions}}]});
-    let mut b = Builder::from_context(ctx(&settings_json())).with_definition(def.to_string().as_str()).map_err(|e| err_kind(&e))?;
+    let mut b = Builder::from_context(ctx(st)).with_definition(def.to_string().as_str()).map_err(|e| err_kind(&e))?;
     for (k, bytes) in ings.iter().enumerate() {
         let ij = json!({"title": format!("ing{}", k + 1), "relationship": if k == 0 { "parentOf" } else { "componentOf" }, "label": format!("ING{}", k + 1)}).to_string();
         b.add_ingredient_from_stream(ij, "image/jpeg", &mut Cursor::new((*bytes).clone())).map_err(|e| format!("ingredient:{}", err_kind(&e)))?;
@@ -110,13 +112,25 @@ pub fn big(args: &[String]) {
     let mut labels: Vec<String> = vec![];
     let t0 = Instant::now();
     for i in 0..n {
-        let r = if i == 0 { sign_with_ings("N1", &[]) } else if mode == "random" && i >= 2 { let j = rng.gen_range(0..i - 1); sign_with_ings(&format!("N{}", i + 1), &[&assets[i - 1], &assets[j]]) } else { sign_with_ings(&format!("N{}", i + 1), &[&assets[i - 1]]) };
+        let r = if i == 0 { sign_with_ings("N1", &[]) } else if mode == "random" && i >= 2 { let j = rng.gen_range(0..i - 1); sign_with_ings(&format!("N{}", i + 1), &[&assets[i - 1], &assets[j]]) } else if mode == "shortcut" { sign_with_ings_s(&format!("N{}", i + 1), &[&assets[i - 1]], &fast_sign_settings()) } else { sign_with_ings(&format!("N{}", i + 1), &[&assets[i - 1]]) };
         match r {
             Ok(a) => { let rd = read_bytes(ctx(&settings_json()), "image/jpeg", &a); let (st, lb) = match &rd { Ok(r) => (state_str(r).to_string(), r.active_label().unwrap_or("").to_string()), Err(e) => (format!("err:{}", err_kind(e)), String::new()) };
                 if [10usize, 20, 40, 80, 120, 160, 198, 199, 200, 201, 202, 250, 300].contains(&(i + 1)) || i + 1 == n { out.emit(&json!({"e": "built", "depth": i + 1, "state": st, "secs": t0.elapsed().as_secs_f64()})); }
                 labels.push(lb); assets.push(a); }
             Err(e) => { out.emit(&json!({"e": "build-refused", "depth": i + 1, "err": e, "secs": t0.elapsed().as_secs_f64()})); break; }
         }
+    }
+    if mode == "shortcut" && assets.len() >= 2 {
+        // a root whose first ingredient is the far end of the chain (reached by a short path first) and whose second is the
+        // near end: the far end is then met again at the bottom of the over-deep path
+        let r = sign_with_ings_s("ROOT", &[&assets[0], assets.last().unwrap()], &fast_sign_settings());
+        match r {
+            Ok(a) => { let rd = read_bytes(ctx(&settings_json()), "image/jpeg", &a); let st = match &rd { Ok(r) => state_str(r).to_string(), Err(e) => format!("err:{}", err_kind(e)) };
+                       out.emit(&json!({"e": "shortcut", "chain": assets.len(), "state": st, "secs": t0.elapsed().as_secs_f64()})); }
+            Err(e) => out.emit(&json!({"e": "shortcut", "chain": assets.len(), "state": format!("refused:{e}"), "secs": t0.elapsed().as_secs_f64()})),
+        }
+        out.emit(&json!({"e": "end"}));
+        return;
     }
     let last = assets.last().unwrap().clone();
     let store = c2pa::jumbf_io::load_jumbf_from_memory("image/jpeg", &last).expect("store");
